@@ -47,6 +47,7 @@ type Scenario struct {
 	SwitchDen   int      `json:"switch_den"`
 	FragDen     int      `json:"frag_den"`
 	ReadChunk   int      `json:"read_chunk"`
+	LinkCap     int      `json:"link_cap"` // bytes each link direction buffers (0 = unbounded)
 }
 
 var cipherChoices = []string{"", "", "", "aes128-gcm@openssh.com", "chacha20-poly1305@openssh.com", "aes128-ctr", "aes256-ctr"}
@@ -61,6 +62,7 @@ func gen(r *rand.Rand, prop, tier string, index int) any {
 		s.MAC = macChoices[1+r.IntN(len(macChoices)-1)]
 	}
 	s.StallDen = []int{0, 1, 2, 4}[r.IntN(4)]
+	s.LinkCap = []int{0, 0, 512, 4096, 65536}[r.IntN(5)]
 	maxW := 4
 	maxRec := 12
 	if tier == "thorough" {
@@ -151,6 +153,7 @@ type openMsg struct{ Index uint32 }
 func runHarness(c *core.Ctx, scnAny any) {
 	s := scnAny.(*Scenario)
 	r := &run{c: c, s: s, w: sshsim.NewWire(Prop, s.FragDen)}
+	r.w.C2S.Cap, r.w.S2C.Cap = s.LinkCap, s.LinkCap
 	for i, st := range s.Streams {
 		ss := &streamState{}
 		if st.Kind == "data" || st.Kind == "stderr" {
@@ -599,6 +602,11 @@ func shrink(scnAny any) []any {
 	if s.StallDen != 0 {
 		n := cp()
 		n.StallDen = 0
+		out = append(out, n)
+	}
+	if s.LinkCap != 0 {
+		n := cp()
+		n.LinkCap = 0
 		out = append(out, n)
 	}
 	return out
